@@ -282,10 +282,28 @@ class Facts:
             if l.c == 0 and len(l.t) == 1 and len(l.t[0][0]) == 1 and l.t[0][1] == 1 and (-l) in cset:
                 zero.add(l.t[0][0][0])
         for l in cons:
-            if l.c >= 0 or l.degree() != 2:
+            if l.c > 0 or l.degree() != 2:
                 continue
             lc = l.subst({z: Lin.const(0) for z in zero}) if (zero & l.symbols()) else l
-            if not lc.t or lc.c >= 0 or lc.degree() != 2:
+            if not lc.t or lc.c > 0 or lc.degree() != 2:
+                continue
+            if lc.c == 0:
+                # x*A >= 0 with x >= 1 gives A >= 0
+                common = set(lc.t[0][0])
+                for m, _ in lc.t[1:]:
+                    common &= set(m)
+                for xs in sorted(common):
+                    x = Lin.sym(xs)
+                    if not ((x - 1) in cset or (x - 2) in cset):
+                        continue
+                    A = Lin(0, ())
+                    for m, co in lc.t:
+                        mm = list(m)
+                        mm.remove(xs)
+                        A = (A + Lin(0, ((tuple(mm), co),))) if mm else (A + co)
+                    if A.degree() <= 1 and A not in cset:
+                        extra.append(A)
+                    break
                 continue
             common = set(lc.t[0][0])
             for m, _ in lc.t[1:]:
